@@ -86,6 +86,7 @@ impl Scenario for C10 {
             for reader in Bk::ALL {
                 for artifact in Artifact::ALL {
                     b.push(Step::Offer { text: t.clone(), faults: vec![], reader, artifact, expect: None, why: String::new() });
+                    b.push(Step::SerdeCross { text: t.clone(), reader, artifact });
                 }
             }
         }
